@@ -38,6 +38,7 @@ def main():
 
     # 2. build model, then proofs
     model_ok = False
+    proof_ok = False
     if not ctx.broken:
         ok, info = vlib.coq_build(mod.MODEL_TARGETS)
         model_ok = ok
@@ -45,20 +46,25 @@ def main():
             ctx.broken.append(('model-build', {k: info.get(k) for k in ('file', 'line', 'theorem', 'message')}
                                if info.get('file') else info['log'][-1500:]))
         ok, info = vlib.coq_build(mod.PROOF_TARGETS)
-        cone = vlib.dependency_cone(mod.PROP_FILE)
-        ctx.obligations = vlib.count_obligations(cone)
+        proof_ok = ok
         if ok:
-            ctx.discharged = ctx.obligations
             ctx.assumptions_text = vlib.print_assumptions(mod.PROP_FILE, pid)
-            bad_ax = {t: b for t, b in ctx.assumptions_text.items()
-                      if not t.startswith('_') and not b.startswith('Closed under the global context')
-                      and not getattr(mod, 'ALLOWED_AXIOMS', None)}
+            allowed = getattr(mod, 'ALLOWED_AXIOMS', ())
+            bad_ax = {}
+            for t, b in ctx.assumptions_text.items():
+                if t.startswith('_') or b.startswith('Closed under the global context'):
+                    continue
+                names = [l.split(':')[0].strip() for l in b.splitlines()[1:] if l and not l.startswith(' ')]
+                if not names or any(n not in allowed for n in names):
+                    bad_ax[t] = b
             if bad_ax or '_raw' in ctx.assumptions_text:
                 ctx.broken.append(('proof', {'unexpected_assumptions': bad_ax or ctx.assumptions_text.get('_raw')}))
         else:
-            ctx.discharged = 0
             ctx.broken.append(('proof', {k: info.get(k) for k in ('file', 'line', 'theorem', 'message')}
                                if info.get('file') else info['log'][-1500:]))
+    cone = vlib.dependency_cone(mod.PROP_FILE)
+    ctx.obligations = vlib.count_obligations(cone)
+    ctx.discharged = ctx.obligations if proof_ok else vlib.count_obligations(vlib.built_files(cone))
 
     # 3/4. correspondence + oracle (the oracle runs on the implementation even when the model is broken)
     try:
